@@ -81,7 +81,7 @@ def _real_shape_tuples():
 def _batch_size_tuples(tier):
     if tier == "thorough":
         return [()] + [(a,) for a in (1, 2, 3)] + [(a, b) for a in (1, 2, 3) for b in (1, 2, 3)]
-    return [(), (1,), (2,), (3,), (2, 3), (2, 1)]
+    return [(), (1,), (2,), (2, 3), (2, 1)]  # size 3 occurs in (2, 3); all 13 tuples in thorough
 
 
 def signatures(tier):
@@ -547,6 +547,17 @@ def cases(tier):
                         if (final == "margpart" and len(rs) < 2) or (final in ("plate", "mix") and not left):
                             continue
                         out.append(["hist", sig, dim + kt % 2, touch, rename, final])
+            # the same live object: every materialiser of a cached property, then every operation
+            touches = list(HIST_TOUCH[1:]) + ["attr:" + a for a in HIST_ATTRS] + ["lognorm+plate", "plate+margall"]
+            for kt, touch in enumerate(touches):
+                if touch == "margpart" and len(rs) < 2:
+                    continue
+                for final in HIST_FINAL_SAME:
+                    if (final == "margpart" and len(rs) < 2) or (final == "intvar" and len(rs) != 1):
+                        continue
+                    if final == "plate-all" and len(bs) < 2:
+                        continue
+                    out.append(["hist", sig, dim + kt % 2, touch, "same", final])
         # -- moment matching
         if bs:
             lsets = [list(bs)] + ([[bs[0]], [bs[1]]] if len(bs) == 2 else [])
@@ -1036,8 +1047,12 @@ def plan_contract(case, seed):
 
 
 HIST_TOUCH = ("none", "lognorm", "margall", "margpart", "integrate", "moment")
+# every lazy_property of Gaussian, materialised directly (used with the SAME-object histories)
+HIST_ATTRS = ("_precision", "_precision_chol", "_covariance", "_scale_tril", "_mean", "_info_vec", "_log_normalizer")
 HIST_RENAME = ("int", "real", "int+real", "swap", "swapreal", "index")
 HIST_FINAL = ("margall", "margpart", "lognorm", "plate", "mix")
+# finals run on the very same object that was touched (substitution step "same")
+HIST_FINAL_SAME = HIST_FINAL + ("plate-lognorm", "plate-all", "mixints", "intgauss", "intvar")
 
 
 def plan_hist(case, seed):
@@ -1060,6 +1075,13 @@ def plan_hist(case, seed):
         tcode = "_t = g0.reduce(ops.logaddexp, %s)\n" % _fs(rs[:1])
     elif touch == "integrate":  # reads _mean, _log_normalizer, _precision_chol
         tcode = "_t = Integrate(g0, g0, %s)\n" % _fs(rs)
+    elif touch.startswith("attr:"):
+        tcode = "_t = g0.%s\n" % touch[5:]
+    elif "+" in touch:  # two touches in a row
+        a, b = touch.split("+")
+        tcode = {"lognorm": "_t = g0.log_normalizer\n", "margall": "_t = g0.reduce(ops.logaddexp, %s)\n" % _fs(rs),
+                 "plate": "_t = g0.reduce(ops.add, %s)\n" % _fs(bn[:1])}
+        tcode = tcode[a] + tcode[b]
     elif touch == "moment":  # reads _mean, _covariance, log_normalizer
         tcode = '_w0 = Tensor(np.zeros(%d), OrderedDict([("%s", Bint[%d])]))\n' % (bs[0][1], bn[0], bs[0][1])
         tcode += "with moment_matching:\n    _t = (g0 + _w0).reduce(ops.logaddexp, %s)\n" % _fs(bn[:1])
@@ -1067,7 +1089,10 @@ def plan_hist(case, seed):
         raise ValueError(touch)
     # 2. substitution
     wv2, ps2 = wv, ps
-    if rename == "index":
+    if rename == "same":
+        sig2 = tuple(sig)
+        rcode = "g = g0\n"
+    elif rename == "index":
         k = bs[0][1] - 1
         sig2 = tuple(e for e in sig if e[0] != bn[0])
         wv2, ps2 = np.ascontiguousarray(np.take(wv, k, axis=0)), np.ascontiguousarray(np.take(ps, k, axis=0))
@@ -1090,6 +1115,11 @@ def plan_hist(case, seed):
         "lognorm": ["lognorm", sig2, rank],
         "plate": ["plate", sig2, rank, bn2[:1], []],
         "mix": ["mix", sig2, rank, list(bn2), bn2[:1], list(rs2), "gl", None],
+        "plate-lognorm": ["plate", sig2, rank, bn2[:1], list(rs2)],
+        "plate-all": ["plate", sig2, rank, list(bn2), []],
+        "mixints": ["mix", sig2, rank, list(bn2), bn2[:1], [], "gl", None],
+        "intgauss": ["intgauss", sig2, rank, tuple(e for e in sig2 if e[1] == "r"), sig_dim(sig2), [], False],
+        "intvar": ["intvar", sig2, rank, rs2[0], "one", [], None, []],
     }[final]
     _OVERRIDE[(sig2, rank)] = (wv2, ps2)
     try:
